@@ -362,6 +362,13 @@ def run(ctx):
         A.group(m, kind_of, ae, "standard", 3, "G6-large")
         ctx.count("large.groups")
         ctx.count("large.pi_atoms>256", 1 if len(pi_set(kind_of)[0]) > 256 else 0)
+    for i in range(1 if quick else 12):
+        # scale: more than a thousand pi-atoms in one call
+        parts = [standard_system(rng, nrings=1, sizes=(6,), chords=0) for _ in range(rng.randint(175, 260))]
+        parts.insert(rng.randrange(len(parts)), standard_system(rng, nrings=rng.choice([2, 4]), sizes=(5, 6, 6, 7), chords=0))
+        m, kind_of, ae = union(parts)
+        A.group(m, kind_of, ae, "standard", 2, "G6-huge")
+        ctx.count("huge.groups")
     for i in range(60 if quick else 2000):
         # biaryl / fluorene-type: ring systems joined by explicit single bonds between aromatic atoms, also as ring
         # closures with '-' on one digit only; larger even rings so that the single bond COULD be double in a matching
